@@ -321,9 +321,9 @@ PROPS = {
     "C09": {
         "parts": [
             {"pkg": "internal/corerad", "run": "TestVerif_C09",
-             "files": ["corerad/zz_verif_C12_test.go", "corerad/zz_verif_sim_test.go", "corerad/zz_verif_adv_test.go", "corerad/zz_verif_mon_test.go", "corerad/zz_verif_C06_test.go", "corerad/zz_verif_C07_test.go", "corerad/zz_verif_C09_test.go", "corerad/zz_verif_C09long_test.go"]},
+             "files": ["corerad/zz_verif_C12_test.go", "corerad/zz_verif_sim_test.go", "corerad/zz_verif_adv_test.go", "corerad/zz_verif_mon_test.go", "corerad/zz_verif_C06_test.go", "corerad/zz_verif_C07_test.go", "corerad/zz_verif_C09_test.go", "corerad/zz_verif_wire_test.go", "corerad/zz_verif_C09long_test.go"]},
             {"pkg": "internal/corerad", "run": "TestVerif_C09long",
-             "files": ["corerad/zz_verif_C12_test.go", "corerad/zz_verif_sim_test.go", "corerad/zz_verif_adv_test.go", "corerad/zz_verif_mon_test.go", "corerad/zz_verif_C06_test.go", "corerad/zz_verif_C07_test.go", "corerad/zz_verif_C09_test.go", "corerad/zz_verif_C09long_test.go"]},
+             "files": ["corerad/zz_verif_C12_test.go", "corerad/zz_verif_sim_test.go", "corerad/zz_verif_adv_test.go", "corerad/zz_verif_mon_test.go", "corerad/zz_verif_C06_test.go", "corerad/zz_verif_C07_test.go", "corerad/zz_verif_C09_test.go", "corerad/zz_verif_wire_test.go", "corerad/zz_verif_C09long_test.go"]},
         ],
         "level": "exploration",
         "bubble": True,
@@ -377,7 +377,7 @@ PROPS = {
                 {"name": "dial-dialNDP", "file": "internal/system/dialer.go", "pattern": r"\bdialNDP\(ifi\)", "repl": "vkDialNDP(ifi)", "count": 1}]},
             {"pkg": "internal/corerad", "run": "TestVerif_C10live",
              "files": ["corerad/zz_verif_C12_test.go", "corerad/zz_verif_sim_test.go", "corerad/zz_verif_adv_test.go", "corerad/zz_verif_mon_test.go",
-                       "corerad/zz_verif_C06_test.go", "corerad/zz_verif_C07_test.go", "corerad/zz_verif_C09_test.go", "corerad/zz_verif_C10_test.go"]},
+                       "corerad/zz_verif_C06_test.go", "corerad/zz_verif_C07_test.go", "corerad/zz_verif_C09_test.go", "corerad/zz_verif_wire_test.go", "corerad/zz_verif_C10_test.go"]},
         ],
         "level": "fault_enumeration",
         "bubble": True,
@@ -452,8 +452,9 @@ PROPS = {
     },
     "C18": {
         "pkg": "internal/corerad",
-        "files": ["corerad/zz_verif_C12_test.go", "corerad/zz_verif_sim_test.go", "corerad/zz_verif_adv_test.go", "corerad/zz_verif_mon_test.go", "corerad/zz_verif_C06_test.go", "corerad/zz_verif_C04_test.go", "corerad/zz_verif_C17_test.go", "shared/zz_verif_doc_test.go", "corerad/zz_verif_C18_test.go"],
+        "files": ["corerad/zz_verif_C12_test.go", "corerad/zz_verif_sim_test.go", "corerad/zz_verif_adv_test.go", "corerad/zz_verif_mon_test.go", "corerad/zz_verif_C06_test.go", "corerad/zz_verif_C04_test.go", "corerad/zz_verif_C17_test.go", "shared/zz_verif_doc_test.go", "corerad/zz_verif_C18_test.go", "corerad/zz_verif_wire_test.go"],
         "run": "TestVerif_C18",
+        "fuzz": [{"target": "FuzzVerif_C18wire", "seconds": 120}],
         "level": "exploration",
         "bubble": True,
         "quick": {"shards": 8},
@@ -531,3 +532,10 @@ for _id, _txt in E2E_RULE.items():
     PROPS[_id]["rule"] = PROPS[_id]["rule"] + _txt
     PROPS[_id]["assumptions"] = list(PROPS[_id].get("assumptions", [])) + [WHOLE]
 PROPS["C11"]["rule"] = PROPS["C11"]["rule"] + C11_SYSCTL
+
+WIRE = (" Wire-bytes sub-check (20 000 / 4 000 000 cases): wire images of well-formed RS/NS/NA/RA messages (fixed seeds and generated large RAs) with 0..6 "
+        "mutations (random byte, edge byte 0/1/127..129/200/254/255, bit flip, dropped or duplicated 8-byte unit, cut span); whatever package ndp still "
+        "parses (about half) is handed to the handler: ")
+PROPS["C18"]["rule"] += WIRE + ("Monitor.handle must not panic, count the message exactly once under its type and host, and set the M/O gauges of an RA. "
+                                "Thorough tier only: 2 minutes of native coverage-guided fuzzing of the same property (monitor and advertiser handler).")
+PROPS["C09"]["rule"] += WIRE + ("Advertiser.handle must not panic, answer an RS to its source (all-nodes for ::), take an RA without error and count any other type as invalid.")
